@@ -961,10 +961,8 @@ class FortranFile:
         if len(text) == 0:
             text_split = [""]
         else:
+            # A trailing line break already yields a final empty string
             text_split = splitlines(text)
-            # Check for ending newline
-            if (text[-1] == "\n") or (text[-1] == "\r"):
-                text_split.append("")
 
         if change_range is None:
             # The whole file has changed
